@@ -15,6 +15,7 @@ def main(pid, tier, repo=None):
         unsafe_rules.rule_refill(ctx)
         unsafe_rules.rule_transmute(ctx)
         unsafe_rules.rule_grouped(ctx)
+        unsafe_rules.rule_cast_align(ctx)
         unsafe_rules.rule_type_census(ctx, "grid")
         kernel_sub.run(ctx, [k for k, v in unsafe_rules.CENSUS.items() if v[0] == "h"])
     if tier == "thorough":
